@@ -283,7 +283,11 @@ Upd(ev) ==
             \* a valid bundle (the damaged block may no longer be recognisable as a block at all)
             bad == ~b.ok \/ ~b.crcok \/ ev.corrupt
             own == ~bad /\ ev.own
-            dup == ~bad /\ ~own /\ b.id \in DOMAIN hist
+            \* a bundle re-assembled from fragments and handed on has the identity of the whole bundle
+            reasm == /\ ~b.isfrag
+                     /\ \E i \in DOMAIN consumed : consumed[i].base = b.base
+                     /\ ~\E id \in DOMAIN hist : hist[id].b.base = b.base /\ ~hist[id].b.isfrag
+            dup == ~bad /\ ~own /\ (b.id \in DOMAIN hist \/ reasm)
             kind == IF bad THEN "bad" ELSE IF own THEN "own" ELSE IF dup THEN "dup" ELSE "new"
             act == Disposition(ev)
             coverNow == (kind = "new" /\ b.isfrag /\ act = "deliver")
